@@ -32,6 +32,12 @@
 #include <stdlib.h>
 #include <stdio.h>
 
+/* ASan keeps freed blocks in a 256 MB quarantine by default; with thousands of tiny exact-size
+ * areas per second a worker grows by ~15 KB per case (several GB in the thorough tier). A case
+ * allocates well under 1 MB, so a 16 MB quarantine still covers every use-after-free inside a case.
+ * (ASAN_OPTIONS set by the driver does not mention these keys, so these defaults apply.) */
+const char *__asan_default_options(void) { return "quarantine_size_mb=16:thread_local_quarantine_size_kb=256"; }
+
 #define MAXH 4
 #define MAXP 4
 #define MAXOPS 40
